@@ -48,15 +48,22 @@ def cases(draw, tier):
             # Krylov tolerance (0 = never stop early) and an eigenvalue that is exactly zero or 1e-9 of the others
             "ktol0": draw(st.integers(1, 4)) == 1, "tiny": draw(st.sampled_from([None, None, None, 0.0, 1e-9])),
             # the algorithm object is first used on a smaller operator; an explicit start vector of another dtype / precision
-            "warm_small": draw(st.integers(1, 4)) == 1, "start": draw(st.sampled_from([None, None, None, "same", "c64", "f32"]))}
+            "warm_small": draw(st.integers(1, 4)) == 1, "start": draw(st.sampled_from([None, None, None, "same", "c64", "f32"])),
+            # the whole operator rescaled by 10^sscale (eigenvectors unchanged, eigenvalues scale with it)
+            "sscale": draw(st.sampled_from([0, 0, 0, -3, -2, 3])), "dominant": draw(st.booleans())}
 
 
 def strategy(tier):
     return cases(tier)
 
 
+DOMINANT = [False]
+
+
 def spectrum(n, rng, signed, tiny=None):
     mags = 0.7 * 1.25 ** (np.arange(n) + rng.random(n) * 0.3)
+    if DOMINANT[0]:
+        mags[-1] *= 3.0  # a dominant eigenvalue (ratio <= 0.34 to the next): the regime in which power iteration is judged
     rng.shuffle(mags)
     if signed:
         mags = mags * np.where(rng.random(n) < 0.5, -1, 1)
@@ -166,7 +173,13 @@ def select_ok(vals, w, which, tol):
 def check(case, out):
     import cola
     L = cola.linalg
+    DOMINANT[0] = bool(case.get("dominant"))
     A, M, condx = build(case)
+    if case.get("sscale") and case["kind"] not in ("eye", ):
+        f = 10.0 ** case["sscale"]
+        ann = set(A.annotations)
+        A, M = f * A, f * M
+        out.label("sscale:%d" % case["sscale"])
     n, k = case["n"], case["k"]
     alg = make_alg(case, n)
     which = "LM" if case["which"] == "omitted" else case["which"]
@@ -179,7 +192,7 @@ def check(case, out):
     site = f"{fn}:{type(A).__name__.split('[')[0]}:{case['alg']}:{which}"
     if case["kind"].startswith("tri"):
         site += ":" + case["kind"]
-    scale = max(1.0, np.linalg.norm(M, 2))
+    scale = max(1.0, np.linalg.norm(M, 2)) if not case.get("sscale") else np.linalg.norm(M, 2)
     w = np.linalg.eigvals(M)
     extra = {} if alg is None else {"alg": alg}
     if case.get("start") and case["alg"] in ("Lanczos", "Arnoldi"):
@@ -211,7 +224,8 @@ def check(case, out):
         out.fail("call", site, oracle.exc_man(e), e)
         return
     vals = np.asarray(vals).reshape(-1)
-    power = case["alg"] == "PowerIteration" or (case["alg"] in ("omitted", "Auto") and k == 1 and which == "LM" and case["kind"] not in ("diag", "eye", "tri_lower", "tri_upper"))
+    structural = type(A).__name__.split("[")[0] in ("Diagonal", "Identity", "Triangular")  # (a rescaled operator is a Product: no structural rule)
+    power = case["alg"] == "PowerIteration" or (case["alg"] in ("omitted", "Auto") and k == 1 and which == "LM" and not structural)
     if power:
         # power iteration is only judged on real spectra with dominance ratio <= 0.5
         mags = np.sort(np.abs(w))[::-1]
